@@ -107,6 +107,23 @@ class Prop(PropBase):
                     cs.append(Case(line(W, H, ["px %d %d %s" % (x, y, element(x, y, 3)), "dump", "gt %d %d" % (x, y),
                                                "cgt %d %d" % (x, y), "it 0 0 %d %d" % (W, H)]),
                                    sweep="single-cell", tag="single"))
+        # ---- 3b. a canvas written through ONE access path only (operator[], begin()+k, range-for, end()-k, the reference
+        # for_each_in_region hands out) - all cells, or only the last k - then resized to every size 0..4 x 0..4 and read
+        # through the const interface: what a "nothing has been written yet" shortcut keyed on one of the paths gets wrong
+        for W in (1, 2, 3):
+            for H in (1, 2, 3):
+                for path in ("px", "pi", "pr", "pe", "fl"):
+                    for k in sorted({1, W, W * H}):
+                        cells = [(i % W, i // W) for i in range(W * H - k, W * H)]
+                        if path == "fl":
+                            wr = ["fl %d %d 1 1 %s" % (x, y, element(x, y, 2)) for (x, y) in cells]
+                        else:
+                            wr = ["%s %d %d %s" % (path, x, y, element(x, y, 2)) for (x, y) in cells]
+                        for W2 in range(5):
+                            for H2 in range(5):
+                                if (W2, H2) != (W, H):
+                                    cs.append(Case(line(W, H, wr + ["rz %d %d" % (W2, H2), "cdump", "rz %d %d" % (W, H), "cdump"]),
+                                                   sweep="single-access-path-then-resize", tag="access-path"))
         # ---- 4. random resize chains with edits in between
         n_chain = 1500 if tier == "quick" else 20000
         for _ in range(n_chain):
@@ -127,7 +144,7 @@ class Prop(PropBase):
                         # edge-biased coordinates: last column / bottom row often
                         x = rng.choice([0, w - 1, rng.randrange(w)])
                         y = rng.choice([0, h - 1, rng.randrange(h)])
-                        ops.append("%s %d %d %s" % (rng.choice(["px", "px", "pi", "pr"]), x, y, element(x % 16, y % 16, salt % 6)))
+                        ops.append("%s %d %d %s" % (rng.choice(["px", "px", "pi", "pr", "pe"]), x, y, element(x % 16, y % 16, salt % 6)))
             if rng.random() < 0.6:
                 ops += fill(w, h, 4)
             else:
